@@ -30,6 +30,7 @@ import (
 	recordtypes "mods.irisnet.org/modules/record/types"
 	servicekeeper "mods.irisnet.org/modules/service/keeper"
 	servicetypes "mods.irisnet.org/modules/service/types"
+	tokenkeeper "mods.irisnet.org/modules/token/keeper"
 	tokenv1 "mods.irisnet.org/modules/token/types/v1"
 	"mods.irisnet.org/simapp"
 
@@ -67,8 +68,10 @@ func genHistory(r *lib.Rand, tier, mode string) History {
 	}
 	// prelude: the objects later operations refer to (tokens, classes, pools), in a random order
 	pre := []Step{
-		{Op: "token.issue", A: r.Intn(nActors), B: 0, N: uint64(1 + r.Intn(1000))},
-		{Op: "token.issue", A: r.Intn(nActors), B: 1, N: uint64(1 + r.Intn(1000))},
+		// scale = N % 7: kitty 6, doggo 2, lion 4 (the fee-token swap pairs connect different scales)
+		{Op: "token.issue", A: r.Intn(nActors), B: 0, N: uint64(6 + 7*r.Intn(100))},
+		{Op: "token.issue", A: r.Intn(nActors), B: 1, N: uint64(2 + 7*r.Intn(100))},
+		{Op: "token.issue", A: r.Intn(nActors), B: 2, N: uint64(4 + 7*r.Intn(100))},
 		{Op: "nft.issue", A: r.Intn(nActors), B: 0}, {Op: "nft.issue", A: r.Intn(nActors), B: 1},
 		{Op: "mt.issue", A: r.Intn(nActors)}, {Op: "mt.issue", A: r.Intn(nActors)},
 		{Op: "coinswap.add", A: r.Intn(nActors), B: 0, N: uint64(100000 + r.Intn(100000))},
@@ -89,6 +92,9 @@ func genHistory(r *lib.Rand, tier, mode string) History {
 	extra(r.Intn(nx + 1))
 	add(Step{Op: "oracle.createfeed", A: 0, B: 0, C: r.Intn(3), N: uint64(2 + r.Intn(3))}, Step{Op: "oracle.startfeed", A: 0, B: 0})
 	extra(r.Intn(nx + 1))
+	// fee-token swaps through a registered pair (residue-leaving amounts); the same pair again later
+	add(Step{Op: "token.swapfee", A: r.Intn(nActors), B: 0, C: r.Intn(nActors), N: uint64(1 + r.Intn(10_000_000))},
+		Step{Op: "token.swapfee", A: r.Intn(nActors), B: 1, C: r.Intn(nActors), N: uint64(1 + r.Intn(5000))})
 	// oracle random requests: each picks one of the three providers of the random service
 	for k := 0; k < 3; k++ {
 		add(Step{Op: "random.oracle", A: r.Intn(nActors), N: uint64(1 + r.Intn(3))})
@@ -117,6 +123,9 @@ func genHistory(r *lib.Rand, tier, mode string) History {
 		}
 		if r.Chance(1, 2) {
 			add(Step{Op: "random.oracle", A: r.Intn(nActors), N: uint64(1 + r.Intn(3))})
+		}
+		if r.Chance(2, 3) {
+			add(Step{Op: "token.swapfee", A: r.Intn(nActors), B: r.Intn(2), C: r.Intn(nActors), N: uint64(1 + r.Intn(10_000_000))})
 		}
 		add(blk)
 	}
@@ -153,7 +162,9 @@ func genServiceStress(r *lib.Rand, tier, mode string) History {
 		}
 	}
 	// a little of the other modules (the non-triviality rule wants >= 5 modules)
-	add(Step{Op: "token.issue", A: r.Intn(nActors), B: 0, N: uint64(1 + r.Intn(1000))},
+	add(Step{Op: "token.issue", A: r.Intn(nActors), B: 0, N: uint64(6 + 7*r.Intn(100))},
+		Step{Op: "token.issue", A: r.Intn(nActors), B: 1, N: uint64(2 + 7*r.Intn(100))},
+		Step{Op: "token.swapfee", A: r.Intn(nActors), B: 0, C: r.Intn(nActors), N: uint64(1 + r.Intn(10_000_000))},
 		Step{Op: "nft.issue", A: r.Intn(nActors), B: 0}, Step{Op: "mt.issue", A: r.Intn(nActors)},
 		Step{Op: "record.create", A: r.Intn(nActors), N: uint64(r.Intn(9))},
 		Step{Op: "coinswap.add", A: r.Intn(nActors), B: 0, N: uint64(100000 + r.Intn(100000))},
@@ -186,7 +197,7 @@ func genServiceStress(r *lib.Rand, tier, mode string) History {
 		nc := 3 + r.Intn(3)
 		rep := uint64(r.Intn(2)) // all repeated with one frequency, or none
 		for c := 0; c < nc; c++ {
-			add(Step{Op: "service.call2", A: 5, B: 1, C: r.Intn(3), N: rep + 2*uint64(r.Intn(2))})
+			add(Step{Op: "service.call2", A: 5, B: 1, C: r.Intn(4), N: rep + 2*uint64(r.Intn(2))})
 		}
 		extra(r.Intn(3))
 		if r.Chance(1, 2) { // pause / kill / start in the block the batches are due
@@ -262,7 +273,9 @@ func randomOp(r *lib.Rand) Step {
 	a, b := r.Intn(nActors), r.Intn(nActors)
 	switch r.Weighted(4, 4, 5, 3, 3, 4, 3, 3, 2) {
 	case 0: // token
-		switch r.Weighted(3, 3, 2, 1, 1) {
+		switch r.Weighted(3, 3, 2, 1, 1, 3) {
+		case 5:
+			return Step{Op: "token.swapfee", A: a, B: r.Intn(2), C: b, N: uint64(1 + r.Intn(10_000_000))}
 		case 0:
 			return Step{Op: "token.issue", A: a, B: r.Intn(3), N: uint64(1 + r.Intn(1000))}
 		case 1:
@@ -299,7 +312,7 @@ func randomOp(r *lib.Rand) Step {
 			return Step{Op: "mt.burn", A: a, B: r.Intn(3), N: uint64(1 + r.Intn(5))}
 		}
 	case 3:
-		return Step{Op: "record.create", A: a, N: uint64(r.Intn(9))}
+		return Step{Op: "record.create", A: a, N: uint64(r.Intn(18))}
 	case 4: // htlc
 		if r.Chance(1, 4) {
 			return htltOp(r)
@@ -369,6 +382,17 @@ type node struct {
 	mk mtkeeper.Keeper
 	sk servicekeeper.Keeper
 	ok oraclekeeper.Keeper
+	tk tokenkeeper.Keeper
+}
+
+// configureSwapRegistry: the fee-token swap pairs of the token keeper are configuration given at app
+// construction (no message sets them); the harness registers, on EVERY app object it builds (also the
+// rebuilt / re-opened one), the same two pairs between tokens of different scales, with fresh values:
+// ukitty -> udoggo at 0.3 and udoggo -> ulion at 3.7 (ratios that leave rounding residues).
+func (n *node) configureSwapRegistry() {
+	reg := n.tk.VerifSwapRegistry()
+	reg["ukitty"] = tokenv1.SwapParams{MinUnit: "udoggo", Ratio: sdkmath.LegacyMustNewDecFromStr("0.3")}
+	reg["udoggo"] = tokenv1.SwapParams{MinUnit: "ulion", Ratio: sdkmath.LegacyMustNewDecFromStr("3.7")}
 }
 
 // actorBalances: what every actor owns at genesis.
@@ -418,10 +442,11 @@ func newNode(start time.Time) *node {
 	n := &node{}
 	bal := actorBalances()
 	n.e = lib.NewEnv(lib.EnvOpts{NActors: nActors, Balances: bal, StartTime: start,
-		Consumers: []interface{}{&n.mk, &n.sk, &n.ok},
+		Consumers: []interface{}{&n.mk, &n.sk, &n.ok, &n.tk},
 		Merge: func(cdc codec.Codec, state simapp.GenesisState) simapp.GenesisState {
 			return tweakGenesis(cdc, state, lib.ActorAddr(0))
 		}})
+	n.configureSwapRegistry()
 	return n
 }
 
@@ -741,6 +766,17 @@ func (rs *runState) build(st Step) (sdk.Msg, string) {
 		default:
 			return &tokenv1.MsgTransferTokenOwner{SrcOwner: owner, DstOwner: actor(e, st.C), Symbol: sym}, "token"
 		}
+	case "token.swapfee":
+		from := []string{"ukitty", "udoggo"}[st.B%2]
+		amt := st.N
+		if st.B%2 == 1 { // udoggo has scale 2: small holdings
+			amt = 1 + st.N%5000
+		}
+		m := &tokenv1.MsgSwapFeeToken{FeePaid: sdk.NewCoin(from, sdkmath.NewIntFromUint64(amt)), Sender: rs.holder(st.A, from, amt)}
+		if st.C%3 != 0 {
+			m.Receiver = actor(e, st.C)
+		}
+		return m, "token"
 	case "token.burn":
 		d := "u" + tokenSyms[st.B%3]
 		return &tokenv1.MsgBurnToken{Coin: sdk.NewCoin(d, sdkmath.NewIntFromUint64(st.N)), Sender: rs.holder(st.A, d, st.N)}, "token"
@@ -810,10 +846,14 @@ func (rs *runState) build(st Step) (sdk.Msg, string) {
 		}
 	// ---- record
 	case "record.create":
-		// 1..3 contents (a record is an ordered list; an order-dependent defect needs >= 2 entries)
+		// 1..3 contents (a record is an ordered list; an order-dependent defect needs >= 2 entries);
+		// st.N >= 9: additionally one content is listed TWICE ([a, b, c, a] / [a, b, a] / [a, a])
 		var cs []recordtypes.Content
 		for k := uint64(0); k <= st.N%3; k++ {
 			cs = append(cs, recordtypes.Content{Digest: fmt.Sprintf("digest-%d-%d", st.N, k), DigestAlgo: "sha256", URI: "ipfs://r", Meta: "m"})
+		}
+		if st.N >= 9 {
+			cs = append(cs, cs[(st.N/3)%uint64(len(cs))])
 		}
 		return &recordtypes.MsgCreateRecord{Contents: cs, Creator: a}, "record"
 	// ---- htlc
@@ -915,7 +955,7 @@ func (rs *runState) build(st Step) (sdk.Msg, string) {
 		}
 		return &servicetypes.MsgRespondService{RequestId: rq.Id, Provider: a, Result: `{"code":200,"message":""}`, Output: output}, "service"
 	case "service.call2":
-		provs := [][]string{{actor(e, 3)}, {actor(e, 4)}, {actor(e, 3), actor(e, 4)}}[st.C%3]
+		provs := [][]string{{actor(e, 3)}, {actor(e, 4)}, {actor(e, 3), actor(e, 4)}, {actor(e, 4), actor(e, 3), actor(e, 4)}}[st.C%4]
 		return &servicetypes.MsgCallService{ServiceName: svcName(st.B), Providers: provs, Consumer: a, Input: `{"header":{},"body":{}}`,
 			ServiceFeeCap: coins("stake", 100000), Timeout: 6, Repeated: st.N&1 == 1, RepeatedFrequency: 6 + (st.N>>1)%2*2, RepeatedTotal: 3}, "service"
 	case "service.update":
